@@ -69,6 +69,7 @@ def units(tier, seed):
     for i in range(12 if tier == 'quick' else 120):
         u.append({'k': 'xdev', 'i': i})
     u.append({'k': 'cli-multi'})
+    u.append({'k': 'rootdir'})
     return u
 
 
@@ -422,14 +423,86 @@ def run_cli_multi(u, ctx):
                               'although local/c was changed' % ' '.join(order), case)
 
 
+def run_rootdir(u, ctx):
+    """The outermost ancestor is the root directory itself (a repository unpacked at
+    the top of a container image): discovery inside a chroot of a scratch tree."""
+    import json
+    layouts = [
+        {'mans': {'': 'DATA x 0\n'}, 'start': 'a/b', 'want': '/Manifest'},
+        {'mans': {'': 'DATA x 0\n', 'a': 'DATA y 0\n'}, 'start': 'a/b', 'want': '/Manifest'},
+        {'mans': {'': 'IGNORE a\n', 'a': 'DATA y 0\n'}, 'start': 'a/b',
+         'want': '/a/Manifest'},
+        {'mans': {'': 'IGNORE a/b\n'}, 'start': 'a/b', 'want': None},
+        {'mans': {'': 'DATA x 0\n'}, 'start': '', 'want': '/Manifest'},
+        {'mans': {'a/b': 'DATA z 0\n'}, 'start': 'a/b', 'want': '/a/b/Manifest'},
+    ]
+    for li, lay in enumerate(layouts):
+        with common.Scratch('vf-c15r-') as d:
+            for rel in ('a/b', 'tmp'):
+                os.makedirs(os.path.join(d, rel), exist_ok=True)
+            for rel, text in lay['mans'].items():
+                with open(os.path.join(d, rel, 'Manifest'), 'w') as f:
+                    f.write(text)
+            r, w = os.pipe()
+            pid = os.fork()
+            if pid == 0:
+                try:
+                    os.close(r)
+                    import gemato.find_top_level as ft
+                    fn = getattr(ft.find_top_level_manifest, '__wrapped__',
+                                 ft.find_top_level_manifest)
+                    os.chroot(d)
+                    os.chdir('/')
+                    try:
+                        got = fn('/' + lay['start'])
+                        out = {'got': None if got is None else os.path.normpath(got)}
+                    except Exception as exc:
+                        out = {'exc': repr(exc)}
+                    os.write(w, json.dumps(out).encode())
+                finally:
+                    os._exit(0)
+            os.close(w)
+            data = b''
+            while True:
+                chunk = os.read(r, 65536)
+                if not chunk:
+                    break
+                data += chunk
+            os.close(r)
+            os.waitpid(pid, 0)
+            case = {'kind': 'rootdir', 'layout': li}
+            ctx.case(sig=('rootdir', li), case=case, klass='rootdir')
+            try:
+                out = json.loads(data.decode())
+            except ValueError:
+                ctx.discarded('chroot child gave no answer')
+                continue
+            ctx.count('rootdir_cases')
+            if 'exc' in out:
+                if 'Permission' in out['exc'] or 'Operation not permitted' in out['exc']:
+                    ctx.discarded('chroot not permitted')
+                    continue
+                ctx.violation('rootdir-raises', 'discovery below / raised %s'
+                              % out['exc'], case)
+            elif out['got'] != lay['want']:
+                ctx.violation('contract-find-top:root-directory',
+                              'in a tree whose top is the root directory, start /%s: '
+                              'got %r, expected %r (Manifests in %r)' % (
+                                  lay['start'], out['got'], lay['want'],
+                                  sorted(lay['mans'])), case)
+
+
 def run_unit(u, ctx):
     {'enum': run_enum, 'rand': run_rand, 'xdev': run_xdev,
-     'enum2': run_enum2, 'cli-multi': run_cli_multi}[u['k']](u, ctx)
+     'enum2': run_enum2, 'cli-multi': run_cli_multi,
+     'rootdir': run_rootdir}[u['k']](u, ctx)
 
 
 def replay(case, ctx):
     if case.get('kind') == 'cli-multi':
         return run_cli_multi({}, ctx)
+    if case.get('kind') == 'rootdir':
+        return run_rootdir({}, ctx)
     spec = case['spec']
     if 'mount_at' in spec:
         run_xdev_spec = None
